@@ -39,6 +39,18 @@ func genCrashpoints(r *rng, index int, stride int) *Spec {
 	}
 	if mode == "zkcut" {
 		ca.CutMs = c.SessionTimeoutMs + int64(r.pickInt(1500, 8000, 20000))
+		if r.chance(0.35) {
+			// long catch-up (slow appliers everywhere) and a short cut: the cut manager is back in a
+			// new session while it still waits for its candidate to catch up
+			for i := range sp.Hosts {
+				if sp.Hosts[i].Role == "ha" && i > 0 {
+					sp.Hosts[i].Init = &InitState{ApplyDelayMs: int64(r.pickInt(500, 600, 700))}
+				}
+			}
+			sp.World.ClientWriteMs = 300
+			c.SlaveCatchUpTimeoutMs = 60000
+			ca.CutMs = c.SessionTimeoutMs + 1500
+		}
 	}
 	sp.CrashAt = ca
 	sp.World.AutoResetupMs = 8000
